@@ -171,7 +171,7 @@ theorem dispatchPlain_tables (U : Universe) (s : St) (ev args : String) :
   split
   · exact .refl s
   · split
-    · exact ⟨rfl, rfl, fun _ => rfl, rfl, rfl, rfl, rfl⟩
+    · exact ⟨rfl, rfl, fun _ => rfl, rfl, rfl, rfl, rfl, fun _ h => h⟩
     · exact deliverPlain_tables U s ev args
 
 theorem runProcs_tables (U : Universe) (s : St) (dt : String) (ps : List Obj) :
@@ -227,10 +227,10 @@ theorem deliverQ_tables (U : Universe) (s : St) (q : QEv) : SameTables U s (deli
 theorem releaseQ_tables (U : Universe) (s : St) (qs : List QEv) :
     SameTables U s (releaseQ U s qs).1 := by
   induction qs generalizing s with
-  | nil => exact ⟨rfl, rfl, fun _ => rfl, rfl, rfl, rfl, rfl⟩
+  | nil => exact ⟨rfl, rfl, fun _ => rfl, rfl, rfl, rfl, rfl, fun _ h => h⟩
   | cons q qs ih =>
     simp only [releaseQ]
-    have h0 : SameTables U s { s with queue := qs } := ⟨rfl, rfl, fun _ => rfl, rfl, rfl, rfl, rfl⟩
+    have h0 : SameTables U s { s with queue := qs } := ⟨rfl, rfl, fun _ => rfl, rfl, rfl, rfl, rfl, fun _ h => h⟩
     have h1 := deliverQ_tables U { s with queue := qs } q
     cases hx : deliverQ U { s with queue := qs } q with
     | mk s' o =>
@@ -243,7 +243,7 @@ theorem setEnabled_tables (U : Universe) (s : St) (b : Bool) :
     SameTables U s (setEnabled U s b).1 := by
   unfold setEnabled
   simp only
-  have h0 : SameTables U s { s with enabled := b } := ⟨rfl, rfl, fun _ => rfl, rfl, rfl, rfl, rfl⟩
+  have h0 : SameTables U s { s with enabled := b } := ⟨rfl, rfl, fun _ => rfl, rfl, rfl, rfl, rfl, fun _ h => h⟩
   split
   · exact h0.trans (releaseQ_tables U _ _)
   · exact h0
